@@ -57,7 +57,8 @@ def _dataframe_to_dataset(
     dimension_name: Hashable,
 ) -> xarray.Dataset:
     """Convert a pandas DataFrame to an xarray Dataset."""
-    dataframe = dataframe.copy()
+    # Rows are identified by their position, matching the labels `extract_points` uses
+    dataframe = dataframe.reset_index(drop=True)
     dataframe.index.name = dimension_name
     dataset = dataframe.to_xarray()
     return dataset
